@@ -173,6 +173,8 @@ MUTANTS = [
     ('int', BIG, '        Ok(Some(NumRef::Int(StarlarkIntRef::Big(self))) == other.unpack_num())', '        match other.unpack_num() {\n            Some(NumRef::Float(_)) => Ok(false),\n            other => Ok(Some(NumRef::Int(StarlarkIntRef::Big(self))) == other),\n        }', 'C09.value.big.equals'),
     ('int', BIG, '        Ok(Some(NumRef::Int(StarlarkIntRef::Big(self))) == other.unpack_num())', '        Ok(other.unpack_num() == Some(NumRef::Int(StarlarkIntRef::Big(self))))', 'EQUIVALENT'),
     ('int', BIG, '            Some(other) => Ok(NumRef::Int(StarlarkIntRef::Big(self)).cmp(&other)),', '            Some(other) => Ok(other.cmp(&NumRef::Int(StarlarkIntRef::Big(self)))),', 'C09.value.big.compare'),
+    ('slots', EVL, '        let value_captured = value_captured_get(value_captured);\n        value_captured\n            .ok_or_else(|| self.local_var_referenced_before_assignment(LocalSlotId(slot.0)))', '        Ok(value_captured_get(value_captured).expect("captured slot is assigned"))', 'get_slot_local_captured'),
+    ('slots', EVL, '        let value_captured = self.get_slot_local(self.current_frame, LocalSlotId(slot.0))?;', '        let value_captured = self.get_slot_local(self.current_frame, LocalSlotId(slot.0 + 1))?;', 'get_slot_local_captured'),
     ('calls', INSTR, '        eval.with_call_stack(self.to_value(), Some(location), |eval| {\n            self.invoke(args, eval)\n        })', '        self.invoke(args, eval)', 'bc_invoke'),
     ('calls', 'starlark/src/values/layout/value.rs', '        eval.with_call_stack(self, location, |eval| {\n            self.get_ref_full().invoke(args, eval)\n        })', '        self.get_ref_full().invoke(args, eval)', 'invoke_with_loc'),
     ('strindex', STRT, 'let ind = CharIndex(i.unsigned_abs() as usize);', 'let ind = CharIndex((-i) as usize);', 'at'),
